@@ -122,6 +122,29 @@ impl Weights {
         connack: 0,
         fail: 4,
     };
+    /// C11 (G11M): QoS 1 and QoS 2 publishes; acks mostly oldest-first, sometimes any unacked publish
+    pub const ORDER_MIXED: Weights = Weights {
+        pub0: 1,
+        pub1: 30,
+        pub2: 12,
+        sub: 0,
+        unsub: 0,
+        manack: 0,
+        disc: 0,
+        ping: 0,
+        ack: 7,
+        ack_oldest: 22,
+        ack_blocker: 0,
+        neg_ack: 0,
+        bad_ack: 0,
+        inpub: 2,
+        inrel: 1,
+        suback: 0,
+        pingresp: 1,
+        srvdisc: 0,
+        connack: 0,
+        fail: 4,
+    };
 
     /// probes: collisions on QoS 2 ids (K1, K3, K6)
     pub const QOS2_COLLISIONS: Weights = Weights {
